@@ -121,9 +121,9 @@ class APDCharacteristics:
         if quantum_efficiency and not (0.0 <= quantum_efficiency <= 1.0):
             raise ValueError("'quantum_efficiency' must be between 0.0 and 1.0.")
 
-        if adc_bit_resolution and not (4 <= adc_bit_resolution <= 64):
+        if adc_bit_resolution is not None and not (4 <= adc_bit_resolution <= 64):
             raise ValueError("'adc_bit_resolution' must be between 4 and 64.")
-        if adc_voltage_range and not len(adc_voltage_range) == 2:
+        if adc_voltage_range is not None and not len(adc_voltage_range) == 2:
             raise ValueError("Voltage range must have length of 2.")
         if full_well_capacity and not (0.0 <= full_well_capacity <= 1.0e7):
             raise ValueError("'full_well_capacity' must be between 0 and 1e7.")
@@ -167,7 +167,7 @@ class APDCharacteristics:
     @quantum_efficiency.setter
     def quantum_efficiency(self, value: float) -> None:
         """Set Quantum efficiency."""
-        if np.min(value) < 0.0 or np.max(value) > 1.0:
+        if not (np.min(value) >= 0.0 and np.max(value) <= 1.0):
             raise ValueError("'quantum_efficiency' values must be between 0.0 and 1.0.")
 
         self._quantum_efficiency = value
@@ -180,7 +180,7 @@ class APDCharacteristics:
     @avalanche_gain.setter
     def avalanche_gain(self, value: float) -> None:
         """Set APD gain."""
-        if np.min(value) < 1.0 or np.max(value) > 1000.0:
+        if not (np.min(value) >= 1.0 and np.max(value) <= 1000.0):
             raise ValueError("'apd_gain' values must be between 1.0 and 1000.")
         self._avalanche_gain = value
         self._avalanche_bias = self.gain_to_bias_saphira(value)
@@ -267,6 +267,9 @@ class APDCharacteristics:
     @adc_voltage_range.setter
     def adc_voltage_range(self, value: tuple[float, float]) -> None:
         """Set voltage range of the Analog-Digital Converter."""
+        if len(value) != 2:
+            raise ValueError("Voltage range must have length of 2.")
+
         self._adc_voltage_range = value
 
     @property
